@@ -56,7 +56,7 @@ def recorder_checks(ck):
 
 def rowwise_checks(ck):
     rng = ck.rng
-    n_models = 2 if ck.tier == "quick" else 5
+    n_models = 3 if ck.tier == "quick" else 6
     for W in (8, 16, 32, 64):
         for mi in range(n_models):
             in_dim = rng.choice([4, 6, 7])
@@ -68,10 +68,20 @@ def rowwise_checks(ck):
                 in_dim, widths, k = 6, [6, 5, 4], 2
                 model = nets.make_custom(rng, (1, 2, 3), [("conv", dict(K=2, depth=1, rf=2, pad=1)), ("flatten",), ("dense", 6), ("dense", 5),
                                                           ("dense", 4), ("gs", 2)])
+            if mi == 0:
+                # identity conv -> padded, overlapping OR pooling -> flatten -> dense: a pooled cell whose window starts in the padding is
+                # the classic place where a cell is only OR-ed into, i.e. keeps what the previous word / the previous call left there
+                # (the buffers of logic_net persist per thread)
+                in_dim, widths, k = 6, [4], 2
+                model = nets.make_custom(rng, (1, 2, 3), [("conv", dict(K=1, depth=1, rf=1, identity=True)), ("pool", dict(k=2, s=1, p=1)), ("flatten",),
+                                                          ("dense", 4), ("gs", 2)])
             spec = nets.extract(model)
             net = compiled.build(model, W)
             compiled.compile_net(net, opt=rng.randrange(4))
             base = [[rng.randrange(2) for _ in range(in_dim)] for _ in range(3 * W + 1)]
+            # bright rows first, dark rows after: stale ones left by an earlier call or an earlier word show in the dark rows
+            base[0], base[1], base[2] = [1] * in_dim, [0] * in_dim, [0] * in_dim
+            base[W:W + 2] = [[0] * in_dim, [0] * in_dim]
             alone = [compiled.forward(net, [r])[0] for r in base]
             ref = [nets.counts(nets.eval_spec(spec, r), k) for r in base]
             for i, (a, r) in enumerate(zip(alone, ref)):
